@@ -326,6 +326,25 @@ func c02Check(c C02Case, cx *h.Ctx) *h.Failure {
 	if err != nil {
 		return h.Failf("relate/error", "Relate returned an error in the strict domain: %v%s", err, desc())
 	}
+	// DE-9IM is a property of the XY point sets: the same operands carrying Z / M / ZM payload give the same matrix
+	// and the same predicate values
+	{
+		lctA, lctB := 1+len(c.A.String())%3, 1+len(c.B.String())%3
+		AL, BL := c16TagWith(forceCT(c.A, lctA), true).ToGeom(), c16TagWith(forceCT(c.B, lctB), false).ToGeom()
+		var gotL string
+		var errL error
+		h.Lib("Relate", func() { gotL, errL = geom.Relate(AL, BL) })
+		if errL != nil || gotL != got {
+			return h.Failf("relate/zm-dependent", "Relate of the same XY operands carrying %s / %s payload = %q (%v), without payload %q%s", gm.CTName(lctA), gm.CTName(lctB), gotL, errL, got, desc())
+		}
+		for _, p := range c02Preds {
+			v1, e1 := p.fn(A, B)
+			v2, e2 := p.fn(AL, BL)
+			if v1 != v2 || (e1 == nil) != (e2 == nil) {
+				return h.Failf("relate/zm-dependent", "%s of the same XY operands changes with Z/M payload: %v vs %v%s", p.name, v1, v2, desc())
+			}
+		}
+	}
 	if got != want.String() {
 		cls := "relate/matrix"
 		if ea.IsEmpty() || eb.IsEmpty() {
